@@ -770,11 +770,7 @@ def dis_rewind_rule(ctx, R4, arch, dis):
     entry = arch.method('x86_mnemo_metaclass', 'dis')
     ps_ = [a.arg for a in entry.args.args]
     stream = ps_[1] if len(ps_) > 1 else 'op'
-    saved = [n.targets[0].id for n in walk_no_nested(entry) if isinstance(n, ast.Assign) and isinstance(n.targets[0], ast.Name)
-             and (u(n.value) == '%s.offset' % stream or u(n.value).replace(' ', '') == "getattr(%s,'offset',None)" % stream)]
-    fail_ifs = [n for n in walk_no_nested(entry) if isinstance(n, ast.If) and any(isinstance(x, ast.Return) and (x.value is None or u(x.value) == 'None') for x in n.body)]
-    entry_restores = any(isinstance(x, ast.Assign) and u(x.targets[0]) == '%s.offset' % stream and isinstance(x.value, ast.Name) and x.value.id in saved
-                         for f_ in fail_ifs for st in f_.body for x in ast.walk(st))
+    entry_restores = True          # decided below by evaluating the entry point
     fails = [n for n in walk_no_nested(dis) if isinstance(n, ast.Return) and (n.value is None or u(n.value) in ('None', 'False'))]
 
     def rewinds_before(ret):
@@ -786,8 +782,8 @@ def dis_rewind_rule(ctx, R4, arch, dis):
                 return i_ > 0 and u(lst[i_ - 1]).replace(' ', '') == 'bin.offset=init_offset'
         return False
     dis_rewinds = bool(fails) and all(rewinds_before(r) for r in fails)
-    # the restoring entry point, evaluated for a stream at offset 0 and at offset 5 with a _dis that consumes 2 bytes and fails
-    if entry_restores and not dis_rewinds:
+    # the entry point, evaluated for a stream at offset 0 and at offset 5 with a _dis that consumes 2 bytes and fails (however it is written)
+    if not dis_rewinds:
         from ..consteval import Native as _Nat
         for start in (0, 5):
             stream_, inst_, cls_ = Obj('stream'), Obj('instr'), Obj('cls')
